@@ -258,14 +258,32 @@ def check_solvers(cfg, acc):
             ("linear", lambda x: np.array([[0.2, 0.1], [-0.3, 0.4]]) @ x + 1.0, np.zeros(2)),
             ("divergent", lambda x: 3.0 * x + 1.0, np.array([1.0, 2.0])),
             ("slow", lambda x: 0.999 * x + 0.001, np.array([5.0, -5.0])),
+            # the function itself overflows in one component only (no injected fault needed)
+            ("partial_overflow", lambda x: np.array([0.5 * x[0] + 1.0, x[1] ** 3]),
+             np.array([0.0, 1e50])),
+            ("partial_nan", lambda x: np.array([0.5 * x[0] + 1.0, np.sqrt(x[1] - 2.0)]),
+             np.array([0.0, 1.0])),
         ]
         for pname, f, x0 in problems:
             plan0 = FaultPlan()
             plan0.armed = True
+            acc.count("evaluations")
             try:
-                fn(plan0.wrap("func", f), x0.copy())
+                with np.errstate(all="ignore"):
+                    xb = fn(plan0.wrap("func", f), x0.copy())
+                with np.errstate(all="ignore"):
+                    resb = float(np.max(np.abs(f(xb) - xb))) if np.all(np.isfinite(xb)) \
+                        else np.inf
+                if not resb < 1e-7:
+                    viol("unconverged_return", "returned_unconverged", resb, "< 1e-7",
+                         fault=None, callback="func", problem=pname, k=None)
+                else:
+                    acc.outcome(("solver", name, pname, "fault-free"))
             except ConvergenceError:
-                pass
+                acc.count("solver_raised_convergence_error")
+            except Exception as e:  # noqa: BLE001
+                viol("exception_escaped", "escaped:" + type(e).__name__, repr(e)[:200],
+                     "ConvergenceError", fault=None, callback="func", problem=pname, k=None)
             n = plan0.counts.get("func", 0)
             for k in range(n):
                 for kind in VALUE_KINDS + EXC_KINDS:
